@@ -416,7 +416,37 @@ def check_histories(repo, rep, tier):
     rep.floor(rid, 500)
 
 
+def check_no_inplace_reshape(repo, rep):
+    """reads hand out VIEWS of the backing array (arr[i], arr[i:j], get_last_item): numpy refuses to resize an array in place while a view
+    of it is alive (ndarray.resize raises ValueError, `a.shape = ..` fails for non-contiguous results) - growth must build a new array"""
+    import ast as _ast
+    rid = "C18-R6"
+    rep.rule(rid, "no method of DynamicNumpyArray changes the shape of the backing array in place (ndarray.resize, assignment to .shape, "
+                  "refcheck / setflags tricks): a row or slice read earlier is a live view, and an append that has to grow would raise "
+                  "where a list never does")
+    cls = repo.cls(DNA, "DynamicNumpyArray")
+    n = 0
+    for f in cls.body:
+        if not isinstance(f, _ast.FunctionDef):
+            continue
+        n += 1
+        me = f.args.args[0].arg if f.args.args else "self"
+        for node in _ast.walk(f):
+            if isinstance(node, _ast.Call) and isinstance(node.func, _ast.Attribute) and node.func.attr in ("resize", "setflags") :
+                b = node.func.value
+                if isinstance(b, _ast.Attribute) and isinstance(b.value, _ast.Name) and b.value.id == me:
+                    rep.violation(rid, f"{f.name}|{node.func.attr}", f"DynamicNumpyArray.{f.name}: `{norm(node)[:80]}` reshapes the backing array in place - it raises while a row or slice "
+                                                                      f"handed out earlier is alive (valid on the list model)")
+            if isinstance(node, _ast.Assign):
+                for t in node.targets:
+                    if isinstance(t, _ast.Attribute) and t.attr == "shape" and isinstance(t.value, _ast.Attribute) and isinstance(t.value.value, _ast.Name) and t.value.value.id == me:
+                        rep.violation(rid, f"{f.name}|shape", f"DynamicNumpyArray.{f.name}: `{norm(node)[:80]}` reshapes the backing array in place")
+        rep.instance(rid, f.name)
+    rep.floor(rid, 8)
+
+
 def run(repo: Repo, rep, tier: str):
+    rep.guarded(check_no_inplace_reshape, repo, rep)
     from vlib import memo
     rep.guarded(memo.check, repo, rep, "C18-R5", [(DNA, "DynamicNumpyArray")], "backing array, index, capacity")
     rep.exhaustive = True
